@@ -44,6 +44,10 @@ def tasks(tier, seed):
 def extra(led, tier, seed):
     from contracts import prox_native, lean_bounds, prox
     led.extend(prox_native.zero_case())
+    from contracts import dtype_native, sparse_sel
+    led.extend(dtype_native.prox_dtypes(seed))
+    # the group structure handed to the operators: check_groups completes a partial list with singletons and rejects non-partitions
+    led.extend(sparse_sel.check_groups_exhaustive(3))
     # lemmas L4 / L5, machine-checked for every dimension (Lean 4 + Mathlib), and their link to the discharged clauses
     led.extend(lean_bounds.obligations(tier, file="Prox.lean", lemmas=prox.LEAN_LEMMAS, fn="specs.prox"))
     led.extend(prox.lemma_links(led.obs))
